@@ -24,6 +24,16 @@ def aux_ok(ctx, tag, obj):
         ctx.ensure_eq(tag + '_aux_coherent', have, want, proj=True, tol=1e-6)
 
 
+def edges_ok(ctx, tag, poly):
+    """the edge segments a hyperbolic polygon hands out join consecutive vertices of its CURRENT primary data"""
+    E = poly.get_edges()
+    p = np.asarray(poly.proj_data)
+    want = np.stack([p, np.roll(p, -1, axis=-2)], axis=-2)
+    ctx.ensure_true(tag + '_shape', np.shape(E.proj_data) == np.shape(want), f"{np.shape(E.proj_data)} vs {np.shape(want)}")
+    if np.shape(E.proj_data) == np.shape(want):
+        ctx.ensure_eq(tag, E.proj_data, want, proj=True, tol=1e-6)
+
+
 def same_points(ctx, tag, new, old):
     ctx.ensure_eq(tag, new, old, proj=True, tol=1e-6)
 
@@ -102,8 +112,12 @@ def aux_invariant_operations(ctx, cls, op):
     elif op == "setitem":
         Z = make(ctx, cls, (), n, name='z')
         Y = type(X)(X)
+        if cls == "HypPolygon":
+            edges_ok(ctx, 'edges_query_before_setitem', Y)     # a query of the derived data before the assignment (it may be cached)
         Y[0] = Z
         aux_ok(ctx, 'after_setitem', Y)
+        if cls == "HypPolygon":
+            edges_ok(ctx, 'edges_query_after_setitem', Y)
         same_points(ctx, 'setitem_value_stored', Y.proj_data[0], Z.proj_data)
         same_points(ctx, 'setitem_other_units_kept', Y.proj_data[1], p0[1])
         aux_ok(ctx, 'value_object_unchanged', Z)
